@@ -57,6 +57,7 @@ class Prop:
     cases = {'quick': 1000, 'thorough': 20000}
     shards = {'quick': 8, 'thorough': 16}
     shrink_budget = 400           # max decide() calls of the structural shrinker
+    shrink_seconds = 25           # and its wall-clock cap per reported violation
     sample_cap = 12
     case_timeout = 300            # seconds; outer safety net only: a worker stuck that long is killed -> exit 2 (inconclusive)
 
@@ -289,11 +290,13 @@ def structural_shrink(prop, case, signature, known):
     cur = case
     cur_out = None
     improved = True
+    t_end = time.time() + prop.shrink_seconds      # affects only how small the reported case is, never the verdict
     while improved and budget > 0:
         improved = False
         for cand in prop.shrink_candidates(cur):
             budget -= 1
-            if budget <= 0:
+            if budget <= 0 or time.time() > t_end:
+                budget = 0
                 break
             try:
                 out = prop.decide(cand)
